@@ -2,11 +2,13 @@ package main
 
 import (
 	"bytes"
+	"encoding/json"
 	"fmt"
 	"go/ast"
 	"go/format"
 	"go/scanner"
 	"go/token"
+	"math/rand"
 	"reflect"
 	"strings"
 
@@ -232,4 +234,63 @@ func firstEmissionIsNewline(f *dst.File) bool {
 		}
 	}
 	return false
+}
+
+// gapSweep: for every gap between two adjacent tokens of src (go/scanner; the gap before an
+// automatically inserted semicolon is the line end and is skipped), the source with a filler
+// placed in that gap: a block comment, a line comment with its line break, a bare line break, a
+// blank line. Variants that no longer parse are dropped by the callers. every > 1 keeps one gap
+// in `every` (offset by phase).
+func gapSweep(src string, every, phase int) []string {
+	fset := token.NewFileSet()
+	file := fset.AddFile("", fset.Base(), len(src))
+	var s scanner.Scanner
+	s.Init(file, []byte(src), nil, scanner.ScanComments)
+	var offs []int
+	for {
+		pos, tok, lit := s.Scan()
+		if tok == token.EOF {
+			break
+		}
+		if tok == token.SEMICOLON && lit == "\n" {
+			continue
+		}
+		offs = append(offs, file.Offset(pos))
+	}
+	var out []string
+	for gi, o := range offs {
+		if gi == 0 || (every > 1 && gi%every != phase%every) {
+			continue
+		}
+		for fi, filler := range []string{" /*g*/ ", " // g\n", "\n", "\n\n"} {
+			_ = fi
+			out = append(out, src[:o]+filler+src[o:])
+		}
+	}
+	return out
+}
+
+// replayFixed re-runs a sub-oracle whose inputs are fixed scenarios (maps with "src" and "edit")
+// and reports whether it still records a failure for the scenario of the replay file.
+func replayFixed(c *Ctx, raw json.RawMessage, run func(c *Ctx)) (handled bool, fails bool, msg string) {
+	var m map[string]interface{}
+	if err := json.Unmarshal(raw, &m); err != nil {
+		return false, false, ""
+	}
+	if _, ok := m["edit"]; !ok {
+		return false, false, ""
+	}
+	want, _ := json.Marshal(m)
+	c2 := &Ctx{Tier: c.Tier, Seed: c.Seed, Repo: c.Repo, Verif: c.Verif, Rng: rand.New(rand.NewSource(c.Seed)), Res: &Result{Failures: []Failure{}}}
+	run(c2)
+	for _, f := range c2.Res.Failures {
+		got, _ := json.Marshal(f.Input)
+		var gm map[string]interface{}
+		json.Unmarshal(got, &gm)
+		g2, _ := json.Marshal(gm)
+		if string(g2) == string(want) {
+			return true, true, f.What
+		}
+	}
+	return true, false, "the fixed scenario passes"
 }
